@@ -242,6 +242,7 @@ pub fn contract_addr(i: usize) -> Address {
 }
 pub const MINER: Address = Address::new([0xBE; 20]);
 /// an account that exists in the pre-state and is empty (EIP-161: a touch deletes it)
+pub const MAXN: Address = Address::new([0x4d; 20]);
 pub const EMPTY_MINER: Address = Address::new([0xBD; 20]);
 
 #[derive(Clone, Debug)]
@@ -328,6 +329,8 @@ pub struct GenOpts {
     /// Prague block with sponsored EIP-7702 authorisations (set / re-point / clear) and calls to
     /// the (possibly delegated) EOAs
     pub auth: bool,
+    /// a sender whose state nonce is u64::MAX (revm rejects every transaction with that nonce)
+    pub maxn: bool,
 }
 
 /// A conflict-heavy block: few slots, data-dependent slot choice, shared callers (nonce chains).
@@ -338,6 +341,9 @@ pub fn gen_block(rng: &mut Rng, n_txs: usize, opts: GenOpts) -> (World, BlockSpe
         for s in 0..4u64 {
             world.db.storage.insert((world.mix, U256::from(s)), U256::from(rng.below(4)));
         }
+    }
+    if opts.maxn {
+        world.db.accounts.insert(MAXN, AccountInfo { balance: U256::from(10u64).pow(U256::from(20)), nonce: u64::MAX, code_hash: KECCAK_EMPTY, code: None, ..Default::default() });
     }
     let specs = [SpecId::SHANGHAI, SpecId::CANCUN, SpecId::PRAGUE, SpecId::LONDON, SpecId::BERLIN];
     let spec = if rng.chance(2, 3) { SpecId::CANCUN } else { *rng.pick(&specs) };
@@ -498,6 +504,19 @@ pub fn gen_block(rng: &mut Rng, n_txs: usize, opts: GenOpts) -> (World, BlockSpe
                     tx.nonce = 1;
                     descr.last_mut().unwrap().push_str(" [sender-with-code]");
                 }
+            }
+        }
+        if opts.maxn && rng.chance(1, 5) {
+            // nonce u64::MAX from a sender at nonce u64::MAX: invalid for revm without any database read
+            // (NonceOverflowInTransaction, the last of the environment checks), unless an earlier
+            // check of the same transaction fails first
+            valid = false;
+            tx.caller = MAXN;
+            tx.nonce = u64::MAX;
+            descr.last_mut().unwrap().push_str(" [nonce-max]");
+            if basefee > 0 && rng.chance(1, 2) {
+                tx.gas_price = basefee as u128 - 1;
+                descr.last_mut().unwrap().push_str(" [+fee-below-basefee]");
             }
         }
         if opts.multi && !valid && tx.nonce != nonce && rng.chance(2, 3) {
